@@ -3,6 +3,7 @@ package props
 import (
 	"bytes"
 	"fmt"
+	"io"
 	iofs "io/fs"
 	"os"
 	"os/exec"
@@ -36,7 +37,13 @@ type e2Node struct {
 	sparseSize     int64
 	skipContent    bool
 	prealloc       int // bytes written on the host; blocks 5..9 are then preallocated with debugfs
+	// far: a sparse file far larger than memory - size farSize, data only in the ranges far[i] = [off, len)
+	// (byte j of range i is ContentByte(70+i, j)|1); compared through windows around each range
+	far     [][2]int64
+	farSize int64
 }
+
+func farByte(i int, j int64) byte { return fsx.ContentByte(70+i, j) | 1 }
 
 var e2FeatOpts = map[string][]string{
 	"default":    {"-t", "ext4"},
@@ -134,6 +141,8 @@ func e2Tree(t map[string]any) map[string]*e2Node {
 		mk("allhole", 1<<20)
 		mk("tailhole", 200000, [2]int64{0, 5000})
 		mk("headhole", 65536+10, [2]int64{65536, 10})
+		// data on both sides of 4 GiB in a 5 GiB file (logical block numbers above 2^22 / 2^20, byte offsets above 2^32)
+		n["far5g"] = &e2Node{kind: "file", farSize: 5<<30 + 1500, far: [][2]int64{{4096, 3000}, {1<<32 - 1500, 3000}, {1<<32 + 123456, 5000}, {5 << 30, 1500}}}
 		// an unwritten (preallocated) extent over blocks that still hold a removed file's bytes
 		pre := &e2Node{kind: "file", data: make([]byte, 9*blk+777), prealloc: 3 * blk}
 		for j := 0; j < 3*blk; j++ {
@@ -235,6 +244,19 @@ func c20Exec(st *e2Stats) func(t map[string]any, idx int) map[string]any {
 					if err == nil {
 						err = os.WriteFile(filepath.Join(src, "zzjunk"), bytes.Repeat([]byte{0xAA}, 40*len(n.data)/9), 0o644)
 					}
+				} else if n.farSize > 0 {
+					var f *os.File
+					if f, err = os.Create(hp); err == nil {
+						for i, r := range n.far {
+							b := make([]byte, r[1])
+							for j := range b {
+								b[j] = farByte(i, int64(j))
+							}
+							f.WriteAt(b, r[0])
+						}
+						f.Truncate(n.farSize)
+						f.Close()
+					}
 				} else if n.sparseSize > 0 {
 					var f *os.File
 					if f, err = os.Create(hp); err == nil {
@@ -320,7 +342,7 @@ func c20Exec(st *e2Stats) func(t map[string]any, idx int) map[string]any {
 		// inline_data drops a trailing hole): otherwise the node's size and content are not compared
 		skipped := 0
 		for _, p := range paths {
-			if n := tree[p]; n.sparseSize > 0 || n.prealloc > 0 {
+			if n := tree[p]; (n.sparseSize > 0 || n.prealloc > 0) && n.farSize == 0 {
 				out := filepath.Join(work, "dump")
 				os.Remove(out)
 				run(work, "/usr/sbin/debugfs", "-R", fmt.Sprintf("dump /%s %s", p, out), img)
@@ -511,6 +533,73 @@ func c20Exec(st *e2Stats) func(t map[string]any, idx int) map[string]any {
 					}
 				case "file":
 					if want.skipContent {
+						continue
+					}
+					if want.farSize > 0 {
+						if info.Size() != want.farSize {
+							addBad(p, "wrong", fmt.Sprintf("size %d, put in %d", info.Size(), want.farSize))
+							continue
+						}
+						var msg, st string
+						if pn := fsx.Catch(func() {
+							h, err := fs.OpenFile(p, os.O_RDONLY)
+							if err != nil {
+								st, msg = "error", "open: "+err.Error()
+								return
+							}
+							defer h.Close()
+							window := func(off, n int64) []byte {
+								if off < 0 {
+									n += off
+									off = 0
+								}
+								if off+n > want.farSize {
+									n = want.farSize - off
+								}
+								if _, err := h.Seek(off, io.SeekStart); err != nil {
+									st, msg = "error", fmt.Sprintf("seek %d: %v", off, err)
+									return nil
+								}
+								b := make([]byte, n)
+								if _, err := io.ReadFull(h, b); err != nil {
+									st, msg = "error", fmt.Sprintf("read %d bytes at %d: %v", n, off, err)
+									return nil
+								}
+								return b
+							}
+							expect := func(off int64) byte {
+								for i, r := range want.far {
+									if off >= r[0] && off < r[0]+r[1] {
+										return farByte(i, off-r[0])
+									}
+								}
+								return 0
+							}
+							var starts []int64
+							for _, r := range want.far {
+								starts = append(starts, r[0]-2000)
+							}
+							starts = append(starts, 0, 1<<31-1000, 1<<32-10000, 3<<30, want.farSize-3000)
+							for _, o := range starts {
+								if st != "" {
+									return
+								}
+								if o < 0 {
+									o = 0
+								}
+								b := window(o, 9000)
+								for k := range b {
+									if b[k] != expect(o+int64(k)) {
+										st, msg = "wrong", fmt.Sprintf("content of a sparse file differs at byte %d (window at %d): got %#x want %#x", o+int64(k), o, b[k], expect(o+int64(k)))
+										return
+									}
+								}
+							}
+						}); pn != "" {
+							addBad(p, "panic", "read: "+pn)
+						} else if st != "" {
+							addBad(p, st, msg)
+						}
 						continue
 					}
 					if info.Size() != int64(len(want.data)) {
